@@ -34,14 +34,76 @@ use crate::builders::{
   BusinessKnowledgeModelEvaluator, DecisionEvaluator, DecisionServiceEvaluator, InputDataContextEvaluator, InputDataEvaluator, ItemDefinitionContextEvaluator,
   ItemDefinitionEvaluator, ItemDefinitionTypeEvaluator,
 };
-use crate::errors::{err_read_lock_failed, err_write_lock_failed};
-use dmntk_common::Result;
+use crate::errors::{err_cyclic_requirements, err_read_lock_failed, err_write_lock_failed};
+use dmntk_common::{HRef, Result};
 use dmntk_feel::context::FeelContext;
 use dmntk_feel::values::Value;
 use dmntk_feel::{value_null, Name};
-use dmntk_model::model::Definitions;
-use std::collections::HashMap;
+use dmntk_model::model::{Definitions, DmnElement};
+use std::collections::{BTreeMap, HashMap};
 use std::sync::{Arc, RwLock, RwLockReadGuard};
+
+/// Returns a node that lies on a cycle of the directed graph given as the lists of nodes
+/// its nodes refer to; references to nodes that are not in the graph are skipped.
+fn find_cycle(graph: &BTreeMap<String, Vec<String>>) -> Option<&str> {
+  // depth-first search without recursion: a node is not done as long as it is on the searched path
+  let mut done: HashMap<&str, bool> = HashMap::new();
+  for (start, references) in graph {
+    if done.contains_key(start.as_str()) {
+      continue;
+    }
+    done.insert(start, false);
+    let mut path = vec![(start.as_str(), references.iter())];
+    while let Some((node, references)) = path.last_mut() {
+      let (node, reference) = (*node, references.next());
+      match reference.map(|reference| (reference, done.get(reference.as_str()))) {
+        Some((reference, Some(false))) => return Some(reference),
+        Some((_, Some(true))) => {}
+        Some((reference, None)) => {
+          if let Some((next, references)) = graph.get_key_value(reference) {
+            done.insert(next, false);
+            path.push((next, references.iter()));
+          }
+        }
+        None => {
+          done.insert(node, true);
+          path.pop();
+        }
+      }
+    }
+  }
+  None
+}
+
+/// Checks that no decision, business knowledge model or decision service requires itself
+/// through the elements it requires: evaluating such an element would never end.
+fn check_requirements(definitions: &Definitions) -> Result<()> {
+  let mut graph: BTreeMap<String, Vec<String>> = BTreeMap::new();
+  let mut add = |id: &Option<String>, references: Vec<&HRef>| {
+    if let Some(id) = id {
+      graph.entry(id.clone()).or_default().extend(references.into_iter().map(String::from));
+    }
+  };
+  for decision in definitions.decisions() {
+    let required_decisions = decision.information_requirements().iter().filter_map(|r| r.required_decision().as_ref());
+    let required_knowledge = decision.knowledge_requirements().iter().filter_map(|r| r.required_knowledge().as_ref());
+    add(decision.id(), required_decisions.chain(required_knowledge).collect());
+  }
+  for bkm in definitions.business_knowledge_models() {
+    let required_knowledge = bkm.knowledge_requirements().iter().filter_map(|r| r.required_knowledge().as_ref());
+    add(bkm.id(), required_knowledge.collect());
+  }
+  for service in definitions.decision_services() {
+    // a decision service evaluates its input decisions, encapsulated decisions and output decisions
+    let decisions = service
+      .input_decisions()
+      .iter()
+      .chain(service.encapsulated_decisions())
+      .chain(service.output_decisions());
+    add(service.id(), decisions.collect());
+  }
+  find_cycle(&graph).map_or(Ok(()), |id| Err(err_cyclic_requirements(id)))
+}
 
 ///
 #[derive(Debug)]
@@ -77,6 +139,7 @@ pub struct ModelEvaluator {
 impl ModelEvaluator {
   /// Creates an instance of [ModelEvaluator].
   pub fn new(definitions: &Definitions) -> Result<Arc<Self>> {
+    check_requirements(definitions)?;
     let model_evaluator = Arc::new(ModelEvaluator::default());
     model_evaluator
       .input_data_evaluator
